@@ -777,23 +777,50 @@ func astWrites(r *Run, onlyPkg string) {
 		// out-of-scope packages are walked silently so that table credits are consumed
 		r.silent = onlyPkg != "" && (topFn(fn).Pkg == nil || shortPkg(topFn(fn).Pkg.Pkg.Path()) != onlyPkg)
 		for _, ins := range allInstrs(fn) {
-			st, ok := ins.(*ssa.Store)
-			if !ok {
-				continue
+			var fa *ssa.FieldAddr
+			var st ssa.Instruction
+			suffix := ""
+			switch x := ins.(type) {
+			case *ssa.Store:
+				fa, _ = x.Addr.(*ssa.FieldAddr)
+				st = x
+			case *ssa.MapUpdate:
+				// an entry written into a map that an existing node holds (Schema.Types,
+				// Schema.PossibleTypes …): maps are not safe for a concurrent write and read
+				if ld, isLd := x.Map.(*ssa.UnOp); isLd && ld.Op == token.MUL {
+					fa, _ = ld.X.(*ssa.FieldAddr)
+				}
+				st = x
+				suffix = "[…]"
 			}
-			fa, ok := st.Addr.(*ssa.FieldAddr)
-			if !ok || fieldOf(fa) == nil || !strings.HasPrefix(namedOf(fa.X.Type()), "github.com/vektah/gqlparser/v2/ast.") {
+			if fa == nil || fieldOf(fa) == nil || !strings.HasPrefix(namedOf(fa.X.Type()), "github.com/vektah/gqlparser/v2/ast.") {
 				continue
 			}
 			// fresh: the node was allocated (or copied by value) in this function
 			if al, isAl := fa.X.(*ssa.Alloc); isAl && al.Parent() == fn {
-				continue
+				if suffix == "" {
+					continue
+				}
+				// … for a map entry: and the map itself was made here
+				madeHere := false
+				for _, s2 := range allInstrs(fn) {
+					if s3, ok := s2.(*ssa.Store); ok {
+						if f3, ok := s3.Addr.(*ssa.FieldAddr); ok && f3.X == fa.X && f3.Field == fa.Field {
+							_, madeHere = s3.Val.(*ssa.MakeMap)
+						}
+					}
+				}
+				if madeHere {
+					continue
+				}
 			}
 			n++
-			what := shortStruct(namedOf(fa.X.Type())) + "." + fieldOf(fa).Name()
+			what := shortStruct(namedOf(fa.X.Type())) + "." + fieldOf(fa).Name() + suffix
 			key := fnName(fn) + "/" + what
 			if reason, ok := useTable(r, astWriteTable, key); ok {
 				r.Tabled(rule, fnName(fn), "write "+what, r.P.pos(st.Pos()), "astWrite", reason)
+			} else if suffix != "" {
+				r.Bad(rule, fnName(fn), "write "+what, r.P.pos(st.Pos()), "an entry is written into a map held by an existing AST/schema object outside the confirmed start-up sites: the merged schema is shared by all requests, and a Go map that is written while another request reads it aborts the process (`concurrent map read and map write`); what later requests plan against also depends on which request came first — build a local copy instead")
 			} else {
 				r.Bad(rule, fnName(fn), "write "+what, r.P.pos(st.Pos()), "an existing AST node is modified in place outside the confirmed sites: nodes of the client's operation are shared (a fragment definition is one node for all its spreads; the operation may be planned again or concurrently), so a later use sees the altered node — take a copy (`n := *node`) and modify that")
 			}
